@@ -59,9 +59,37 @@ MODELS['names'] = dict(
 )
 
 
+def _txt(v):
+    return str(v)
+
+
+MODELS['typed'] = dict(
+    make=lambda: mk({'A1': 1, 'B1': '=ISNUMBER(A1)', 'C1': '=A1&"x"', 'D1': '=IF(ISNUMBER(A1),A1+1,0)'}),
+    inputs=[S('A1')],
+    formulas={S('B1'): lambda v: isinstance(v[S('A1')], int) and not isinstance(v[S('A1')], bool),
+              S('C1'): lambda v: ('True' if v[S('A1')] else 'False') + 'x' if isinstance(v[S('A1')], bool) else str(v[S('A1')]) + 'x',
+              S('D1'): lambda v: 0 if isinstance(v[S('A1')], bool) else v[S('A1')] + 1},
+    names={},
+    typed=True,
+)
+MODELS['absent'] = dict(
+    make=lambda: mk({'A1': 1, 'B1': '=A1+A2', 'C1': '=B1*2+A3'}),
+    inputs=[S('A1'), S('A2'), S('A3')],
+    formulas={S('B1'): lambda v: v[S('A1')] + v.get(S('A2'), 0),
+              S('C1'): lambda v: (v[S('A1')] + v.get(S('A2'), 0)) * 2 + v.get(S('A3'), 0)},
+    names={},
+    absent=[S('A2'), S('A3')],
+)
+
+
 def reset(model, spec):
     """Forget everything a previous path may have left behind in the shared model objects."""
     for addr in spec['formulas']:
         c = model.cells[addr]
         c.value = None
         c.need_update = True
+    for addr in spec['inputs']:
+        if addr in model.cells:
+            model.cells[addr].value = 0       # never leave a symbolic value of an earlier path behind
+    for addr in spec.get('absent', []):
+        model.cells.pop(addr, None)           # cells that do not exist until a history sets them
